@@ -230,9 +230,11 @@ def verify_contract(repo, c, variant, policy=None, path_timeout_ms=2000, max_pat
             for kind_, q in I.call_log:
                 stats["calls"].add((kind_, q))
             ok = c.allowed_exception(I, S, e)
-            label = f"raises:{e.kind}@{e.where or ''}:{e.lineno}"
+            label = f"raises:{e.kind}"
             if ok is not True:
-                ctx.oblige(f"{c.qualname}:{label}", ok, kind="raises", info=tagsof("raises"))
+                inf = tagsof("raises")
+                inf["where"] = f"{e.where or ''}:{e.lineno}"
+                ctx.oblige(f"{c.qualname}:{label}", ok, kind="raises", info=inf)
             S.exc = e
             for label2, t in c.ensures_on_raise(I, S) if hasattr(c, "ensures_on_raise") else []:
                 ctx.oblige(f"{c.qualname}:post:{label2}", t, kind="post", info=tagsof(label2))
